@@ -8,7 +8,7 @@ BOUNDS = {
     "quick": "start, end, rx, ry, rotation (degrees, any value in +-720) all symbolic; all four flag combinations; both branches of the radius correction; "
              "degenerate inputs (coincident end points, rx = 0, ry = 0) with symbolic end points; construction through Arc(start, rx, ry, rot, fa, fs, end) and through "
              "Path('M.. A..') / Path('M.. a..') with tag numerals",
-    "thorough": "same harnesses with 120 s per lemma and the cvc5 cross-check",
+    "thorough": "same harnesses with 60 s per lemma and 900 s per harness, all construction routes (Arc, A, a) for every flag combination, and the unconstrained-radius variants",
 }
 OUTSIDE = ["Arc.get_start_t / t_at_point: that point(t) starts its parametrisation at the stored start point (arc.point(t) is replaced by point_at_t at a free parameter plus the "
            "proof that the stored start and end points lie on the stored ellipse)", "the exact half-turn boundary (radii scaled up: both large-arc values give a half ellipse)",
@@ -211,14 +211,14 @@ def h_twin(ctx):
 
 def harnesses(tier):
     hs = []
-    to = 120000 if tier == "thorough" else 10000
+    to = 60000 if tier == "thorough" else 10000
     for fa in (0, 1):
         for fs in (0, 1):
             for corr in ("plain", "scaled") + (("any_plain", "any_scaled") if tier == "thorough" else ()):
                 vias = (("Arc", "A", "a") if not corr.startswith("any") else ("Arc",)) if tier == "thorough" else (("Arc", "a") if (fa, fs, corr) == (0, 1, "plain") else (("Arc", "A") if (fa, fs, corr) == (1, 0, "scaled") else ("Arc",)))
                 for via in vias:
                     hs.append({"name": "f6/fa=%d/fs=%d/%s/%s" % (fa, fs, corr, via), "fn": "h_f6", "params": {"fa": fa, "fs": fs, "correction": corr, "via": via},
-                               "weight": 9, "claim_timeout_ms": to, "budget_s": 140 if tier != "thorough" else 3000, "no_dual": True,
+                               "weight": 9, "claim_timeout_ms": to, "budget_s": 140 if tier != "thorough" else 900, "no_dual": True,
                                "branch_timeout_ms": 1000 if tier != "thorough" else 10000})
     hs.append({"name": "on_ellipse", "fn": "h_on_ellipse", "claim_timeout_ms": to})
     for k in ("coincident", "rx0", "ry0", "both0"):
